@@ -109,6 +109,10 @@ func runDriver(driver string, ops []string) ([]string, error) {
 	cmd := exec.Command(driver)
 	var in bytes.Buffer
 	for _, o := range ops {
+		// an op line may carry implementation-only arguments after " ;"
+		if i := strings.Index(o, " ;"); i >= 0 {
+			o = o[:i]
+		}
 		in.WriteString(o)
 		in.WriteByte('\n')
 	}
